@@ -92,6 +92,28 @@ func init() {
 			}
 			panic(engineErr("Signbit of %T", args[0]))
 		},
+		"math.Abs": func(in *Interp, fn *ssa.Function, args []value) value {
+			switch x := args[0].(type) {
+			case float64:
+				return math.Abs(x)
+			case intFloat:
+				neg := in.tab.Slt(x.t, in.tab.Const(64, 0))
+				return intFloat{in.tab.Ite(neg, in.tab.Neg(x.t), x.t)}
+			}
+			panic(engineErr("Abs of %T", args[0]))
+		},
+		"math.Float64bits": func(in *Interp, fn *ssa.Function, args []value) value {
+			if f, ok := args[0].(float64); ok {
+				return int64(math.Float64bits(f))
+			}
+			panic(cut("Float64bits of symbolic float"))
+		},
+		"math.Float64frombits": func(in *Interp, fn *ssa.Function, args []value) value {
+			if b, ok := args[0].(int64); ok {
+				return math.Float64frombits(uint64(b))
+			}
+			panic(cut("Float64frombits of symbolic bits"))
+		},
 		"math.NaN":   func(in *Interp, fn *ssa.Function, args []value) value { return math.NaN() },
 		"math.Floor": func(in *Interp, fn *ssa.Function, args []value) value { return in.floatFn(args[0], math.Floor) },
 		"math.Trunc": func(in *Interp, fn *ssa.Function, args []value) value { return in.floatFn(args[0], math.Trunc) },
@@ -770,80 +792,170 @@ func (in *Interp) digitsNoLeadingZeros(ds []*Term) value {
 // ---------------------------------------------------------------------------------------------
 // fmt.Sprintf
 
+// fmtSeg is one piece of a scanned format string: literal bytes or a directive.
+type fmtSeg struct {
+	lit     []value // literal bytes (constants or 8-bit terms)
+	isDir   bool
+	sharp   bool
+	plus    bool
+	prec    int
+	verb    byte  // concrete verb
+	symVerb value // a verb byte outside the known set (kept symbolic): always a bad verb
+	noVerb  bool
+}
+
+const knownVerbs = "vsdqtfFeEgGxXcTpUob%"
+
+// scanFormat splits a format string whose bytes may be symbolic (user text that reached a
+// format string). A symbolic byte forks on "is it %"; the bytes of a directive fork on the flag,
+// digit and verb classes that change fmt's behaviour.
+func (in *Interp) scanFormat(f value) []fmtSeg {
+	if isOpaqueStr(f) {
+		panic(cut("fmt-opaque-format"))
+	}
+	b := strBytes(f)
+	var segs []fmtSeg
+	var lit []value
+	is := func(x value, c byte) bool { return in.truth(byteIs(in, x, c)) }
+	inSet := func(x value, set string) bool { return in.truth(byteInSet(in, x, set)) }
+	i := 0
+	for i < len(b) {
+		if !is(b[i], '%') {
+			lit = append(lit, b[i])
+			i++
+			continue
+		}
+		if len(lit) > 0 {
+			segs = append(segs, fmtSeg{lit: lit})
+			lit = nil
+		}
+		i++
+		d := fmtSeg{isDir: true, prec: -1}
+		for i < len(b) && inSet(b[i], "#+- 0") {
+			switch {
+			case is(b[i], '#'):
+				d.sharp = true
+			case is(b[i], '+'):
+				d.plus = true
+			default:
+				panic(cut("fmt-flag"))
+			}
+			i++
+		}
+		if i < len(b) && inSet(b[i], "123456789*[") {
+			panic(cut("fmt-width-or-index"))
+		}
+		if i < len(b) && is(b[i], '.') {
+			i++
+			d.prec = 0
+			for i < len(b) && inSet(b[i], "0123456789") {
+				d.prec = d.prec*10 + int(in.concretize(in.tab.ZExt(in.intTerm(b[i], 8), 64), "fmt-precision")-'0')
+				i++
+			}
+			if i < len(b) && inSet(b[i], "*[") {
+				panic(cut("fmt-width-or-index"))
+			}
+		}
+		if i >= len(b) {
+			d.noVerb = true
+			segs = append(segs, d)
+			break
+		}
+		vb := b[i]
+		i++
+		if c, ok := vb.(int64); ok {
+			if c >= 0x80 {
+				panic(cut("fmt-nonascii-verb"))
+			}
+			d.verb = byte(c)
+		} else {
+			found := false
+			for k := 0; k < len(knownVerbs); k++ {
+				if is(vb, knownVerbs[k]) {
+					d.verb = knownVerbs[k]
+					found = true
+					break
+				}
+			}
+			if !found {
+				if !in.truth(in.simpBool(in.tab.Ult(vb.(*Term), in.tab.Const(8, 0x80)))) {
+					panic(cut("fmt-nonascii-verb"))
+				}
+				d.symVerb = vb
+			}
+		}
+		segs = append(segs, d)
+	}
+	if len(lit) > 0 {
+		segs = append(segs, fmtSeg{lit: lit})
+	}
+	return segs
+}
+
 func fmtSprintf(in *Interp, fn *ssa.Function, args []value) value {
-	format := concStr(args[0], "Sprintf format")
 	var vals []value
 	if args[1] != nil {
 		vals = args[1].([]value)
 	}
 	var out value = ""
 	argi := 0
-	i := 0
-	lit := 0
-	flush := func(to int) {
-		if to > lit {
-			out = strConcat(out, format[lit:to])
-		}
-	}
-	for i < len(format) {
-		if format[i] != '%' {
-			i++
+	for _, sg := range in.scanFormat(args[0]) {
+		if !sg.isDir {
+			out = strConcat(out, mkStr(sg.lit))
 			continue
 		}
-		flush(i)
-		i++
-		sharp, plus := false, false
-		for i < len(format) && (format[i] == '#' || format[i] == '+' || format[i] == '-' || format[i] == ' ' || format[i] == '0') {
-			if format[i] == '#' {
-				sharp = true
-			}
-			if format[i] == '+' {
-				plus = true
-			}
-			if format[i] == '-' || format[i] == ' ' || format[i] == '0' {
-				panic(cut("fmt-flag-%c", format[i]))
-			}
-			i++
-		}
-		if i < len(format) && format[i] >= '1' && format[i] <= '9' {
-			panic(cut("fmt-width"))
-		}
-		prec := -1
-		if i < len(format) && format[i] == '.' {
-			i++
-			prec = 0
-			for i < len(format) && format[i] >= '0' && format[i] <= '9' {
-				prec = prec*10 + int(format[i]-'0')
-				i++
-			}
-		}
-		if i >= len(format) {
+		if sg.noVerb {
 			out = strConcat(out, "%!(NOVERB)")
-			lit = i
-			break
+			continue
 		}
-		verb := format[i]
-		i++
-		lit = i
-		if verb == '%' {
+		if sg.symVerb == nil && sg.verb == '%' {
 			out = strConcat(out, "%")
 			continue
 		}
+		verbStr := value(string([]byte{sg.verb}))
+		if sg.symVerb != nil {
+			verbStr = mkStr([]value{sg.symVerb})
+		}
 		if argi >= len(vals) {
-			out = strConcat(out, "%!"+string(verb)+"(MISSING)")
+			out = strConcat(strConcat(strConcat(out, "%!"), verbStr), "(MISSING)")
 			continue
 		}
 		a := vals[argi].(iface)
 		argi++
-		p := &printer{in: in, sharp: sharp, plus: plus, prec: prec}
-		if verb == 'v' && sharp {
+		p := &printer{in: in, sharp: sg.sharp, plus: sg.plus, prec: sg.prec}
+		if sg.symVerb != nil {
+			// not a verb fmt knows: %!c(type=value) with the byte itself
+			q := &printer{in: in, prec: -1}
+			o := strConcat(strConcat("%!", verbStr), "(")
+			if a.t == nil {
+				o = strConcat(o, "<nil>)")
+			} else {
+				o = strConcat(strConcat(strConcat(o, typeString(a.t)+"="), q.printArg(a, 'v', 0)), ")")
+			}
+			out = strConcat(out, o)
+			continue
+		}
+		if sg.verb == 'v' && sg.sharp {
 			p.sharp, p.sharpV = false, true
 		}
-		out = strConcat(out, p.printArg(a, verb, 0))
+		out = strConcat(out, p.printArg(a, sg.verb, 0))
 	}
-	flush(len(format))
 	if argi < len(vals) {
-		panic(cut("fmt-extra-args"))
+		// %!(EXTRA type=value, type=value)
+		o := value("%!(EXTRA ")
+		for k := argi; k < len(vals); k++ {
+			a := vals[k].(iface)
+			if k > argi {
+				o = strConcat(o, ", ")
+			}
+			if a.t == nil {
+				o = strConcat(o, "<nil>")
+			} else {
+				q := &printer{in: in, prec: -1}
+				o = strConcat(strConcat(o, typeString(a.t)+"="), q.printArg(a, 'v', 0))
+			}
+		}
+		out = strConcat(out, strConcat(o, ")"))
 	}
 	return out
 }
